@@ -255,6 +255,11 @@ def symbolic_comprehension(interp, e, fr, it, what):
         from .loops import VBag
         NodeIn = it.g['NodeIn']
         return VBag([Node], lambda a: NodeIn[a], lambda a: VNode(a), note='nodes')
+    if it.kind == 'keys' and it.what == 'items' and it.base.kind == 'adj' and what == 'list' and not g.ifs:
+        return mapped_adjacency_items(interp, fr, g, e, it.base)
+    rowlike = it if it.kind == 'row' else (it.base if (it.kind == 'keys' and it.what == 'keys' and it.base.kind == 'row') else None)
+    if rowlike is not None and what == 'list' and isinstance(g.target, _ast.Name) and isinstance(e.elt, _ast.Name) and e.elt.id == g.target.id:
+        return filtered_row(interp, fr, g, rowlike)
     if it.kind == 'seq' and g.ifs and what == 'list' and it.meta.get('elem_kind') == 'int' and isinstance(g.target, _ast.Name) \
             and isinstance(e.elt, _ast.Name) and e.elt.id == g.target.id:
         return filtered_int_seq(interp, fr, g, it)
@@ -284,6 +289,89 @@ def symbolic_comprehension(interp, e, fr, it, what):
     ctx.assume(z3.ForAll([q], z3.Implies(indom(q), z3.And(inb(last(q), n), at(last(q))[0].z == q)), patterns=[indom(q)]), 'seq')
     ctx.assume(z3.ForAll([i], z3.Implies(inb(i, n), z3.And(indom(at(i)[0].z), i <= last(at(i)[0].z))), patterns=[at(i)[0].z]), 'seq')
     return VMap(lambda qq: indom(qq), lambda qq: at(last(qq))[1], {'n': n, 'key': lambda k: at(k)[0], 'val': lambda k: at(k)[1], 'last': last})
+
+
+def subst_v(v, x0, x):
+    """the value v (built for the generic node x0) with x in place of x0"""
+    k = v.kind
+    if k == 'node':
+        return VNode(z3.substitute(v.z, (x0, x)))
+    if k == 'int':
+        return VInt(z3.substitute(v.z, (x0, x)))
+    if k == 'bool':
+        return VBool(z3.substitute(v.z, (x0, x)))
+    if k == 'tuple':
+        return VTuple([subst_v(y, x0, x) for y in v.items])
+    if k == 'row':
+        return VRow(v.g, v.w, z3.substitute(v.u, (x0, x)), v.view)
+    if k in ('none', 'str'):
+        return v
+    raise Undecided('generic element of kind %s' % k)
+
+
+def mapped_adjacency_items(interp, fr, g, e, adj):
+    """(f(n, row) for n, row in self._succ.items()): one element per node with a row, computed for a generic node a0"""
+    from .loops import VBag
+    ctx = interp.ctx
+    Row = adj.g['Row_' + adj.w]
+    a0 = fresh('a0', Node)
+    saved = dict(fr.env)
+    interp.assign(g.target, VTuple([VNode(a0), VRow(adj.g, adj.w, a0, adj.view)]), fr)
+    if hasattr(ctx, 'add_focus'):
+        ctx.add_focus([a0])
+    n_h, n_pc = len(ctx.hyps), len(ctx.pc)
+    was = getattr(interp, 'pure_calls', False)
+    interp.pure_calls = True
+    ctx.solver.push()
+    try:
+        ctx.assume(Row[a0])
+        val = interp.eval(e.elt, fr)
+    finally:
+        interp.pure_calls = was
+        ctx.solver.pop()
+        del ctx.hyps[n_h:]
+        del ctx.hyp_cats[n_h:]
+        del ctx.pc[n_pc:]
+    fr.env.clear()
+    fr.env.update(saved)
+    subst_v(val, a0, a0)        # (raises Undecided for element kinds that cannot be re-instantiated)
+    return VBag([Node], lambda a: Row[a], lambda a: subst_v(val, a0, a), note='mapped adjacency items')
+
+
+def filtered_row(interp, fr, g, row):
+    """[b for b in self._adj[a] if cond(b)]: the neighbours b of a (keys of the row) that satisfy cond, each once, order unspecified.
+    cond is evaluated for a generic neighbour b0 (assumed to be a key of the row while it is evaluated); callee contracts are used in
+    their closed form (interp.pure_calls) so that no assumption about b0 outlives the evaluation"""
+    from .loops import VBag
+    ctx = interp.ctx
+    Cells = row.g['Cell_' + row.w][row.u]
+    b0 = fresh('b0', Node)
+    saved = dict(fr.env)
+    interp.assign(g.target, VNode(b0), fr)
+    n_h, n_pc = len(ctx.hyps), len(ctx.pc)
+    was = getattr(interp, 'pure_calls', False)
+    interp.pure_calls = True
+    if hasattr(ctx, 'add_focus'):
+        ctx.add_focus([b0])
+        n_h = len(ctx.hyps)            # (the invariant for the pairs of b0 stays: it is a fact about an arbitrary node)
+    ctx.solver.push()
+    try:
+        ctx.assume(Cells[b0] != 0)
+        conds = []
+        for cnd in g.ifs:
+            t_ = interp.truth(interp.eval(cnd, fr))
+            conds.append(z3.BoolVal(t_) if isinstance(t_, bool) else t_)
+    finally:
+        interp.pure_calls = was
+        ctx.solver.pop()
+        del ctx.hyps[n_h:]
+        del ctx.hyp_cats[n_h:]
+        del ctx.pc[n_pc:]
+    fr.env.clear()
+    fr.env.update(saved)
+    cond0 = z3.And(*conds) if conds else z3.BoolVal(True)
+    member = lambda b: z3.And(Cells[b] != 0, z3.substitute(cond0, (b0, b)))
+    return VBag([Node], member, lambda b: VNode(b), note='filtered neighbours')
 
 
 def filtered_int_seq(interp, fr, g, it):
